@@ -95,9 +95,17 @@ def cases(rng, tier):
             rts = g.new_struct("WithTail", depth=1, rts=True)
         lines = [g.render_struct(s) for s in structs] + ([g.render_struct(rts)] if rts else [])
         b = 0
-        for s in structs:
-            lines.append("@group(0) @binding(%d) var<storage, read_write> g%d: %s;" % (b, b, s.name))
-            b += 1
+        reach = {}
+        for k, s in enumerate(structs):
+            # the last struct is always bound; the others only sometimes, so that some structs are reachable ONLY as
+            # members / array elements of another struct (declared before repeated member types or after them)
+            if k == len(structs) - 1 or rng.random() < 0.5:
+                lines.append("@group(0) @binding(%d) var<storage, read_write> g%d: %s;" % (b, b, s.name))
+                s.structs_below(reach)
+                b += 1
+        if rts:
+            rts.structs_below(reach)
+        structs = [s for s in structs if s.name in reach]      # the others are not host-visible: not emitted
         if rts:
             lines.append("@group(0) @binding(%d) var<storage, read_write> g%d: WithTail;" % (b, b))
         lines.append("@compute @workgroup_size(1) fn main() {}")
@@ -113,6 +121,15 @@ def cases(rng, tier):
             lines.append("@group(0) @binding(%d) var<storage, read_write> particles: array<Particle, 4>;" % (b + 1))
             lines.append("@vertex fn vs_main(p: Particle) -> @builtin(position) vec4<f32> { return vec4<f32>(0.0); }")
             extra.append(part)
+        if i % 5 == 2:
+            # arrays whose element is smaller than its stride (vec3): element type and padding both matter
+            v3 = Ty("struct", name="V3Arr", members=[("a", Ty("array", elem=Ty("vec", n=3, s="f32"), n=rng.choice([2, 3]))),
+                                                     ("b", Ty("scalar", s="f32")),
+                                                     ("c", Ty("array", elem=Ty("vec", n=3, s=rng.choice(["u32", "i32"])), n=2)),
+                                                     ("m", Ty("array", elem=Ty("mat", c=3, r=3, s="f32"), n=2))], has_rts=False)
+            lines.insert(0, g.render_struct(v3))
+            lines.append("@group(1) @binding(0) var<storage, read_write> v3arr: V3Arr;")
+            extra.append(v3)
         out.append({"wgsl": "\n".join(lines) + "\n", "family": "encase_glam", "opts": {"encase": True, "mv": "Glam"},
                     "tys": structs + ([rts] if rts else []) + extra, "rts_lengths": [0, 1, 3]})
     return out
